@@ -130,7 +130,11 @@ def scen(w, enc="inch", K=3, kinds="r"):
             w.cover("episode-left")
     pa_, pb_ = a.P, b.P
     final = alg.and_(alg.eq(pb_.x, pa_.x + tx), alg.eq(pb_.y, pa_.y + ty), alg.eq(pb_.z, pa_.z))
-    w.check(final, "same-physical-end-position",
+    if w.check(final, "same-physical-end-position",
+               "encoding=%s switch=%d ; A %r sent %r ; B %r sent %r" % (enc, s, a.program, a.sent, b.program, b.sent)) is False:
+        return
+    # the extruder is a physical axis as well: the filament ends up at the same place in both encodings
+    w.check(alg.eq(pb_.fil, pa_.fil), "same-physical-filament-position",
             "encoding=%s switch=%d ; A %r sent %r ; B %r sent %r" % (enc, s, a.program, a.sent, b.program, b.sent))
 
 
